@@ -1842,3 +1842,68 @@ func ruleEOFNoPhantom(r *Run) {
 		r.ok(key, rn.Pos(), "every return on the path (io.EOF, length 0, a message already received) carries an error")
 	}
 }
+
+func init() {
+	register(&Rule{Name: "LIMIT-AFTER-DECOMPRESS", Floor: 1,
+		Doc: "the receive limit is a limit on the message after decompression: a refusal in streamGRPC.RecvMsg that compares the frame's *wire* length (the length field of the frame header) with the receive limit applies only to uncompressed frames (it is guarded by the frame's compressed flag being clear); applied to a compressed frame it refuses an incompressible message that is within the limit but a few bytes longer on the wire (gzip adds about 23 bytes)",
+		Run: ruleLimitAfterDecompress})
+}
+
+func ruleLimitAfterDecompress(r *Run) {
+	p := r.P
+	fn := p.Method("streamGRPC", "RecvMsg")
+	if fn == nil {
+		r.missing("method (*streamGRPC).RecvMsg")
+		return
+	}
+	n := 0
+	for _, lc := range p.limitCompares(fn) {
+		if lc.kind != "recv" || p.refusalEdge(lc.ifi) < 0 {
+			continue
+		}
+		// the compared value is the length field of the frame header
+		wire := false
+		for _, o := range p.origins(lc.other, originOpts{throughConvert: true, local: true}) {
+			if c, ok := o.(*ssa.Call); ok && strings.Contains(calleeName(c), "encoding/binary") && strings.HasSuffix(calleeName(c), "Uint32") {
+				wire = true
+			}
+		}
+		if !wire {
+			continue
+		}
+		n++
+		key := fmt.Sprintf("(*streamGRPC).RecvMsg/wire-length-refusal#%d", n)
+		guarded := false
+		for _, g := range guardsOf(lc.ifi.Block()) {
+			x, y, op, ok := g.cmp()
+			if !ok {
+				continue
+			}
+			k, isC := constInt(y)
+			if !isC {
+				continue
+			}
+			isFlag := false
+			for _, o := range p.origins(x, originOpts{local: true}) {
+				if u, ok := o.(*ssa.UnOp); ok && u.Op == token.MUL {
+					if ia, ok := u.X.(*ssa.IndexAddr); ok {
+						if i, isC := constInt(ia.Index); isC && i == 0 {
+							isFlag = true
+						}
+					}
+				}
+			}
+			if isFlag && ((k == 1 && op == token.NEQ) || (k == 0 && op == token.EQL)) {
+				guarded = true
+			}
+		}
+		if guarded {
+			r.ok(key, lc.bo.Pos(), "the wire length is compared with the receive limit only for uncompressed frames")
+		} else {
+			r.bad(key, lc.bo.Pos(), "the frame's wire length is compared with the receive limit whether or not the frame is compressed: a message within the limit whose compressed form is longer than the limit (incompressible data: gzip adds about 23 bytes) is refused on size grounds although its size after decompression is within the limit")
+		}
+	}
+	if n == 0 {
+		r.info("(*streamGRPC).RecvMsg/wire-length-refusal", fn.Pos(), "RecvMsg does not refuse on the wire length")
+	}
+}
